@@ -1,5 +1,5 @@
 use yasna::{Tag, DERWriter, BERReader};
-use model::error::{RdpResult, Error};
+use model::error::{RdpResult, Error, RdpError, RdpErrorKind};
 use indexmap::map::IndexMap;
 
 /// Enum all possible value
@@ -728,8 +728,65 @@ pub fn to_der(message: &dyn ASN1) -> Vec<u8> {
     })
 }
 
+/// Every length announced by a (possibly nested) element must fit in what is left
+/// of its container: the reader underneath adds lengths to positions unchecked,
+/// a length of 2^64 - 1 coming from the peer would overflow there
+fn lengths_fit(mut data: &[u8], depth: usize) -> bool {
+    if depth > 64 {
+        return false;
+    }
+    while !data.is_empty() {
+        let constructed = data[0] & 0x20 != 0;
+        let mut pos = 1;
+        if data[0] & 0x1f == 0x1f {
+            // high tag number form
+            loop {
+                match data.get(pos) {
+                    Some(b) => { pos += 1; if b & 0x80 == 0 { break; } },
+                    None => return false
+                }
+            }
+        }
+        let first = match data.get(pos) { Some(b) => *b as usize, None => return false };
+        pos += 1;
+        if first == 0x80 {
+            // indefinite form: the content runs to the end of the container
+            return lengths_fit(&data[pos..], depth + 1);
+        }
+        let length = if first < 0x80 { first } else {
+            let count = first & 0x7f;
+            if count > 4 || data.len() - pos < count {
+                return false;
+            }
+            let mut length = 0 as usize;
+            for i in 0..count {
+                length = (length << 8) | data[pos + i] as usize;
+            }
+            pos += count;
+            length
+        };
+        if length > data.len() - pos {
+            return false;
+        }
+        if constructed && !lengths_fit(&data[pos..pos + length], depth + 1) {
+            return false;
+        }
+        data = &data[pos + length..];
+    }
+    true
+}
+
+fn check_lengths(stream: &[u8]) -> RdpResult<()> {
+    if lengths_fit(stream, 0) {
+        Ok(())
+    } else {
+        Err(Error::RdpError(RdpError::new(RdpErrorKind::InvalidData, "ASN1: a length exceeds its container")))
+    }
+}
+
 /// Deserialize an ASN1 message from a stream
 pub fn from_der(message: &mut dyn ASN1, stream: &[u8]) ->RdpResult<()> {
+    check_lengths(stream)?;
     Ok(yasna::parse_der(stream, |reader| {
         if let Err(Error::ASN1Error(e)) = message.read_asn1(reader) {
             return Err(e)
@@ -740,6 +797,7 @@ pub fn from_der(message: &mut dyn ASN1, stream: &[u8]) ->RdpResult<()> {
 
 /// Deserialize an ASN1 message from a stream using BER
 pub fn from_ber(message: &mut dyn ASN1, stream: &[u8]) ->RdpResult<()> {
+    check_lengths(stream)?;
     Ok(yasna::parse_ber(stream, |reader| {
         if let Err(Error::ASN1Error(e)) = message.read_asn1(reader) {
             return Err(e)
